@@ -27,7 +27,10 @@ LEVEL = ("Memory safety (every packet load and store inside [data, data_end)), a
          "model does not predict is a correspondence break with that frame) over structured frames (untagged/802.1Q/"
          "802.1ad/QinQ x IHL 0..15 x option 53 at every offset 0..12 x option 82 placements), truncation at every "
          "offset, every length 0..1600, byte mutations and random bytes, under cache hits by every key, misses, "
-         "expiry and random map bytes.")
+         "expiry and random map bytes. antispoof_ingress / qos_*: the checked-access models contain no packet store, so "
+         "their *_pass_unmodified theorems hold by construction of the model; that the C programs contain no store "
+         "either rests on the native before/after byte comparison of every run (monitor pass-modified, applied under "
+         "TC_ACT_OK and TC_ACT_SHOT alike), while their no_fault / defined_verdict theorems are about the modelled loads.")
 ASSUME = [
     "clang's native x86-64 code generation (-O1, ASan/UBSan) stands for the BPF back end; the in-kernel verifier is not run",
     "kernel map semantics and bpf_ktime_get_ns are modelled as byte tables and a clock value (cshim); statistics counters "
